@@ -378,16 +378,25 @@ fn run_req_item(b: &mut Built, drv: &mut Driver, case: &Value, item: &Value, s: 
 /// the outcome class of every request, and a finished fill must have inserted its buckets.
 fn bounds_correspondence(b: &mut Built, drv: &mut Driver, case: &Value, item: &Value, req: &Value, out: &Out, s: &mut Summary) {
   let Some(agg) = req["aggs"]["h"].as_object() else { return };
-  let gen::Fill::Count(n, Some((start, end, step))) = gen::fill_of(agg) else { return };
-  if n > 10_000 || matches!(out, Out::Hang | Out::Reject(_)) {
-    return;
-  }
   let sub = single(case, item);
   let numeric = agg.get("type") == Some(&json!("histogram"));
+  if matches!(out, Out::Hang | Out::Reject(_)) {
+    return;
+  }
   let m = if numeric {
+    let gen::Fill::Count(n, Some((start, end, _))) = gen::fill_of(agg) else { return };
+    if n > 10_000 {
+      return;
+    }
     drv.call("C16", json!({"op": "hist_fill", "start": start, "stop": end}))
   } else {
-    drv.call("C16", json!({"op": "date_fill", "step": step, "start": start, "stop": end}))
+    // fixed-step date fill: `bucket_start` of both bounds (checked since /repo d7457e1), then the loop
+    let Some((step, off, lo, hi)) = gen::date_inputs(agg) else { return };
+    if step < 1 || !matches!(gen::fill_of(agg), gen::Fill::Count(n, _) if n <= 10_000) {
+      return;
+    }
+    let bucket = |v: i64| v.checked_sub(off).map(|d| gen::bucket_of(d, step)).unwrap_or(0);
+    drv.call("C16", json!({"op": "date_finish", "step": step, "offset": off, "lo": lo, "hi": hi, "bucket_lo": bucket(lo), "bucket_hi": bucket(hi)}))
   };
   if m["ok"] != json!(true) {
     s.disagree("bounds.driver", &sub, out.brief(), m);
@@ -430,11 +439,17 @@ fn bounds_correspondence(b: &mut Built, drv: &mut Driver, case: &Value, item: &V
     if out.class() != "ok" {
       return;
     }
-    s.count(&format!("bounds.date-model-{}", m["fill"]["cls"].as_str().unwrap_or("?")));
-    if m["fill"]["cls"] == json!("never") {
+    let cls = m["fill"]["cls"].as_str().unwrap_or("?");
+    s.count(&format!("bounds.date-model-{cls}"));
+    if m["legacy_lo"] != json!("key") || m["legacy_hi"] != json!("key") {
+      s.count("bounds.date-original-bucket-start-would-panic");
+    }
+    if cls == "never" {
       s.disagree("bounds.date-fill-finished-but-model-never", &sub, out.brief(), m.clone());
       return;
     }
+    // a fill that ran inserted its buckets; when a bound has no bucket nothing is filled
+    // (documents may still contribute buckets of their own)
     if let (Some(len), Some(ins)) = (buckets, m["fill"]["inserted"].as_u64()) {
       if (len as u64) < ins {
         s.disagree("bounds.date-fill-buckets", &sub, json!({"buckets": len}), m);
